@@ -76,6 +76,13 @@ def one_case(out: Outcome, rng, cls: str, p: dict, pre: list, post: list, runner
             ra, rf = dets.public_reads(a.det), dets.public_reads(b.det)
             for name in sorted(ra):
                 if name in rf and ra[name] != rf[name]:
+                    # is the attribute a function of the history at all?  Two NEW instances fed the same updates from the same generator state must agree on it,
+                    # otherwise it is not an output in the sense of this property (a wall-clock statistic, an object address ...)
+                    c2 = dets.Runner("a", cls, p)
+                    feed(cls, c2, post, state)
+                    if c2.err is None and dets.public_reads(c2.det).get(name) != rf[name]:
+                        out.count("public_attributes_not_a_function_of_the_history")
+                        continue
                     out.violation(f"{cls}: after reset() and {len(post)} updates the public attribute `{name}` reads {str(ra[name])[:120]}, "
                                   f"on a new instance fed the same updates {str(rf[name])[:120]}", {"class": cls, "params": p, "pre": pre, "post": post, "attribute": name})
                     break
